@@ -23,6 +23,22 @@ import (
 
 type Event map[string]any
 
+// A library that hangs costs a watchdog timeout per scenario: after a few hung scenarios the
+// family stops generating new ones (the recorded hangs are evidence enough).
+var hungScenarios int
+
+const hangBudget = 4
+
+func noteHang(evs []Event) {
+	for _, e := range evs {
+		if e["ev"] == "hang" || e["ev"] == "stuck" {
+			hungScenarios++
+			return
+		}
+	}
+}
+func tooManyHangs() bool { return hungScenarios >= hangBudget }
+
 // ---------------------------------------------------------------------------
 // ndjson output
 // ---------------------------------------------------------------------------
@@ -147,13 +163,69 @@ type payloadVal struct {
 	Note string
 }
 
-const nPayloadKinds = 7
+const nPayloadKinds = 8
+
+// typed nil pointers: they carry no data, so the token is recovered from the pointer TYPE
+// (the most recently created payload of that type; eight types are cycled through, and a
+// value only travels within one node visit, so the latest one is the right one)
+type nilT0 struct{ _ int }
+type nilT1 struct{ _ int }
+type nilT2 struct{ _ int }
+type nilT3 struct{ _ int }
+type nilT4 struct{ _ int }
+type nilT5 struct{ _ int }
+type nilT6 struct{ _ int }
+type nilT7 struct{ _ int }
+
+func typedNil(i int) any {
+	switch i % 8 {
+	case 0:
+		return (*nilT0)(nil)
+	case 1:
+		return (*nilT1)(nil)
+	case 2:
+		return (*nilT2)(nil)
+	case 3:
+		return (*nilT3)(nil)
+	case 4:
+		return (*nilT4)(nil)
+	case 5:
+		return (*nilT5)(nil)
+	case 6:
+		return (*nilT6)(nil)
+	}
+	return (*nilT7)(nil)
+}
+
+func typedNilIndex(v any) int {
+	switch v.(type) {
+	case *nilT0:
+		return 0
+	case *nilT1:
+		return 1
+	case *nilT2:
+		return 2
+	case *nilT3:
+		return 3
+	case *nilT4:
+		return 4
+	case *nilT5:
+		return 5
+	case *nilT6:
+		return 6
+	case *nilT7:
+		return 7
+	}
+	return -1
+}
 
 // Registry maps tokens to the concrete values handed to the library in one scenario.
 type Registry struct {
-	mu   sync.Mutex
-	vals map[int]any
-	errs map[int]error
+	mu         sync.Mutex
+	vals       map[int]any
+	errs       map[int]error
+	lastNil    [8]int // latest token whose payload is the typed nil pointer of type i
+	NoTypedNil bool   // families whose tokens are not sequential keep to data-carrying payloads
 }
 
 func NewRegistry() *Registry {
@@ -188,6 +260,14 @@ func (r *Registry) Payload(tok int) any {
 		v = fmt.Sprintf("tok:%d", tok)
 	case 6:
 		v = []int{tok, tok}
+	case 7:
+		if r.NoTypedNil {
+			v = &payloadPtr{Tok: tok}
+		} else {
+			i := (tok / nPayloadKinds) % 8
+			v = typedNil(i)
+			r.lastNil[i] = tok
+		}
 	}
 	r.vals[tok] = v
 	return v
@@ -208,6 +288,15 @@ func (r *Registry) Observe(v any) (tok int, same bool) {
 		return 0, true
 	}
 	tok = -1
+	if i := typedNilIndex(v); i >= 0 {
+		r.mu.Lock()
+		t := r.lastNil[i]
+		r.mu.Unlock()
+		if t == 0 {
+			return -1, false
+		}
+		return t, true
+	}
 	switch x := v.(type) {
 	case *payloadPtr:
 		if x != nil {
